@@ -42,12 +42,14 @@ def _bundles(ka, wa, kb, wb, kc, wc, f2, f3, fan, m2):
     L.add(_leaf(kc, wc, "c"))
     M = h.Bundle(name="M")
     M.add(_leaf(kb, wb, "b"))
-    t0 = h.BundleInstance(name="t0", of=L, flipped=f3)
+    # (with fan-out the sub-bundle instances are DECLARED as ports inside their bundle definitions: visibility of the
+    #  flattened leaves is decided by the module-level instance alone)
+    t0 = h.BundleInstance(name="t0", of=L, flipped=f3, port=bool(fan))
     M.add(t0)
     T = h.Bundle(name="T")
     T.roles = ROLES
     T.add(_leaf(ka, wa, "a"))
-    s0 = h.BundleInstance(name="s0", of=M, flipped=(f2 != m2))
+    s0 = h.BundleInstance(name="s0", of=M, flipped=(f2 != m2), port=bool(fan))
     if m2:
         s0 = h.flipped(s0)  # flip through the function instead of the constructor flag
     T.add(s0)
